@@ -155,7 +155,12 @@ struct Prog<'r> {
     kinds: BTreeSet<&'static str>,
     between: bool,
     last: &'static str,
-    used_fill_buffer: bool,
+    /// a fill_buffer / seek_danger call was issued on this scorer (including the current call)
+    fill_seen: bool,
+    danger_seen: bool,
+    /// ... before the call that is being checked right now
+    fill_before: bool,
+    danger_before: bool,
     rounding_diffs: u64,
     /// target of the most recent seek_danger call of the whole program: the documented contract
     /// promises strictly increasing targets to the docset
@@ -166,9 +171,30 @@ impl<'r> Prog<'r> {
     fn cur(&self) -> DocId {
         self.r.get(self.pos).map(|e| e.0).unwrap_or(TERMINATED)
     }
+    /// to be called right before every call into the scorer
+    fn begin(&mut self, kind: &'static str) {
+        self.fill_before = self.fill_seen;
+        self.danger_before = self.danger_seen;
+        if kind == "fill_buffer" {
+            self.fill_seen = true;
+        }
+        if kind == "seek_danger" {
+            self.danger_seen = true;
+        }
+    }
+    /// Signature tags in a fixed order: the base signature (which names the failing call, for
+    /// post-call checks as `[reached-by=<call>]`), then `[fill_buffer-earlier]`, then
+    /// `[seek_danger-earlier]` when such a call was issued on this scorer before the failing one.
     fn fail(&self, sig: impl Into<String>, d: Value) -> (String, Value) {
         let n = self.ops.len();
-        (sig.into(), json!({"problem": d, "program_tail": self.ops[n.saturating_sub(12)..].to_vec(), "program_len": n,
+        let mut sig: String = sig.into();
+        if self.fill_before {
+            sig.push_str("[fill_buffer-earlier]");
+        }
+        if self.danger_before {
+            sig.push_str("[seek_danger-earlier]");
+        }
+        (sig, json!({"problem": d, "program_tail": self.ops[n.saturating_sub(12)..].to_vec(), "program_len": n,
             "reference_len": self.r.len(), "reference_around": self.r[self.pos.saturating_sub(3)..(self.pos + 4).min(self.r.len())].iter().map(|e| e.0).collect::<Vec<_>>()}))
     }
     /// doc() and (often) score() must agree with the reference at the expected position
@@ -176,7 +202,7 @@ impl<'r> Prog<'r> {
         let cur = self.cur();
         let d = sc.doc();
         if d != cur {
-            return Err(self.fail(format!("doc()-differs-from-expected-position[after={}]", self.last), json!({"doc()": d, "expected": cur})));
+            return Err(self.fail(format!("doc()-differs-from-expected-position[reached-by={}]", self.last), json!({"doc()": d, "expected": cur})));
         }
         if scored && cur != TERMINATED && rng.chance(3, 4) {
             let reps = if rng.chance(1, 5) { 2 } else { 1 };
@@ -190,7 +216,7 @@ impl<'r> Prog<'r> {
                         self.rounding_diffs += 1;
                     } else {
                         return Err(self.fail(
-                            format!("score-differs-from-reference[reached-by={}]{}", self.last, if self.used_fill_buffer && self.last != "fill_buffer" { "[fill_buffer-earlier]" } else { "" }),
+                            format!("score-differs-from-reference[reached-by={}]", self.last),
                             json!({"doc": cur, "score": s, "reference_score": want}),
                         ));
                     }
@@ -220,7 +246,7 @@ fn run_program(
     last_call: &mut &'static str,
 ) -> Result<(bool, BTreeSet<&'static str>, u64), (String, Value)> {
     let max_doc = reader.max_doc();
-    let mut p = Prog { r, pos: 0, ops: vec![], kinds: BTreeSet::new(), between: false, last: "new", used_fill_buffer: false, rounding_diffs: 0, last_danger: None };
+    let mut p = Prog { r, pos: 0, ops: vec![], kinds: BTreeSet::new(), between: false, last: "new", fill_seen: false, danger_seen: false, fill_before: false, danger_before: false, rounding_diffs: 0, last_danger: None };
     p.check_here(sc, rng, scored)?;
     let len = rng.urange(3, 40);
     let style = rng.below(6); // 0: seek-heavy 1: fill-heavy 2: danger-heavy  else mixed
@@ -269,6 +295,7 @@ fn run_program(
         match op {
             Op::Advance => {
                 p.ops.push(op.json());
+                p.begin("advance");
                 let ret = sc.advance();
                 if p.pos < r.len() {
                     p.pos += 1;
@@ -284,6 +311,7 @@ fn run_program(
             }
             Op::Seek(t) => {
                 p.ops.push(op.json());
+                p.begin("seek");
                 let ret = sc.seek(t);
                 let np = first_at_or_after(r, p.pos, t);
                 if t < TERMINATED && r.get(np).map(|e| e.0 != t).unwrap_or(false) && t > cur {
@@ -308,11 +336,11 @@ fn run_program(
             Op::FillBuffer => {
                 p.ops.push(op.json());
                 let mut buf = [0u32; COLLECT_BLOCK_BUFFER_LEN];
+                p.begin("fill_buffer");
                 let n = sc.fill_buffer(&mut buf);
                 let want_n = (r.len() - p.pos).min(COLLECT_BLOCK_BUFFER_LEN);
                 let want: Vec<DocId> = r[p.pos..p.pos + want_n].iter().map(|e| e.0).collect();
                 p.last = "fill_buffer";
-                p.used_fill_buffer = true;
                 if n != want_n || buf[..n.min(COLLECT_BLOCK_BUFFER_LEN)] != want[..] {
                     return Err(p.fail(
                         "fill_buffer:unexpected-content",
@@ -325,6 +353,7 @@ fn run_program(
             Op::FillBitset(min_doc) => {
                 p.ops.push(op.json());
                 let mut mask = [TinySet::empty(); BLOCK_NUM_TINYBITSETS];
+                p.begin("fill_bitset_block");
                 let ret = sc.fill_bitset_block(min_doc, &mut mask);
                 let horizon = min_doc + BLOCK_WINDOW;
                 let a = first_at_or_after(r, p.pos, min_doc);
@@ -410,6 +439,7 @@ fn run_program(
                     p.ops.push(Op::Danger(t).json());
                     p.last_danger = Some(t);
                     *last_call = if steps == 1 && below { "seek_danger[target-below-doc]" } else { "seek_danger" };
+                    p.begin("seek_danger");
                     let res = format!("{:?}", sc.seek_danger(t));
                     *last_call = "other";
                     let parsed = match parse_danger(&res) {
@@ -464,6 +494,7 @@ fn run_program(
             }
             Op::CountAll => {
                 p.ops.push(op.json());
+                p.begin("count_including_deleted");
                 let n = sc.count_including_deleted();
                 let want = (r.len() - p.pos) as u32;
                 if n != want {
@@ -474,6 +505,7 @@ fn run_program(
             Op::CountAlive => {
                 p.ops.push(op.json());
                 let alive = reader.alive_bitset().unwrap();
+                p.begin("count");
                 let n = sc.count(alive);
                 let want = r[p.pos..].iter().filter(|e| alive.is_alive(e.0)).count() as u32;
                 if n != want {
@@ -483,6 +515,7 @@ fn run_program(
             }
             Op::Hints => {
                 p.ops.push(op.json());
+                p.begin("size_hint+cost");
                 let _ = sc.size_hint();
                 let _ = sc.cost();
                 p.check_here(sc, rng, scored)?;
@@ -638,7 +671,7 @@ fn scorer_case(
                 Ok(Ok(Err((sig, d)))) => {
                     push_violation(
                         rep,
-                        format!("[{}]{}", structure_tag(q), sig),
+                        full_signature(q, &sig),
                         json!({"query": q.json(), "scoring": scored, "segment_max_doc": max_doc, "corpus": corpus.describe(), "detail": d}),
                     );
                 }
@@ -712,6 +745,51 @@ fn structure_tag(q: &Q) -> &'static str {
     } else {
         "no-union"
     }
+}
+
+/// Does the query contain a union one of whose legs answers a missed `seek_danger` by standing on
+/// a position it has not verified (phrase / phrase-prefix / regex-phrase scorers: candidate
+/// document whose positions were not checked; intersections: legs not aligned)?  Only such legs
+/// can be misread by BufferedUnionScorer::seek_danger -> self.seek() (known finding); term,
+/// bitset, range, exists, exclude and disjunction legs use the default seek_danger and stay valid.
+fn union_with_unverified_leg(q: &Q) -> bool {
+    fn unverifying(q: &Q) -> bool {
+        match q {
+            Q::Phrase { .. } | Q::RegexPhrase { .. } => true,
+            Q::PhrasePrefix { terms, .. } => !terms.is_empty(),
+            Q::Boost(c, _) | Q::Const(c, _) => unverifying(c),
+            // an intersection (>= 2 required legs, or required legs next to a required union)
+            Q::Bool { clauses, .. } => {
+                let n_must = clauses.iter().filter(|c| c.0 == Oc::Must).count();
+                let n_should = clauses.iter().filter(|c| c.0 == Oc::Should).count();
+                (n_must >= 2 || (n_must >= 1 && n_should >= 1)) || clauses.iter().any(|c| c.0 != Oc::MustNot && unverifying(&c.1))
+            }
+            Q::DisMax(qs, _) => qs.iter().any(unverifying),
+            _ => false,
+        }
+    }
+    let here = match q {
+        Q::DisMax(qs, _) if qs.len() >= 2 => qs.iter().any(unverifying),
+        Q::Bool { clauses, .. } if clauses.iter().filter(|c| c.0 == Oc::Should).count() >= 2 => {
+            clauses.iter().any(|c| c.0 == Oc::Should && unverifying(&c.1))
+        }
+        _ => false,
+    };
+    here || match q {
+        Q::Boost(c, _) | Q::Const(c, _) => union_with_unverified_leg(c),
+        Q::DisMax(qs, _) => qs.iter().any(union_with_unverified_leg),
+        Q::Bool { clauses, .. } => clauses.iter().any(|c| union_with_unverified_leg(&c.1)),
+        _ => false,
+    }
+}
+
+/// `[<structure>]<signature>[<tags>]`; the last tag says that the union is driven through
+/// seek_danger by the enclosing conjunction / exclusion itself (no harness call needed) and has a
+/// leg of the kind described at `union_with_unverified_leg`
+fn full_signature(q: &Q, sig: &str) -> String {
+    let st = structure_tag(q);
+    let internal = st == "union-under-conjunction" && union_with_unverified_leg(q);
+    format!("[{st}]{sig}{}", if internal { "[seek_danger-internal]" } else { "" })
 }
 
 fn panic_violation(rep: &mut Report, p: &PanicInfo, q: &Q, during: &str, corpus: &Corpus) {
